@@ -515,6 +515,21 @@ func cliRunHistory(h cliHistory) (string, string) {
 				}
 				tx = append(tx, s)
 			}
+			// every call of a history starts afresh: offsets 0, T, 3T, ... relative to ITS start and,
+			// on the silent network of these histories, the no-response error at T(2^n - 1)
+			// (state carried over from an earlier call of the same client - a doubled
+			// timeout, a try counter - shows here)
+			if bad == "" && h.n >= 0 {
+				for k, w := range ws[seen:] {
+					if w.t-t0 != schedAt(h.T, k) {
+						bad = fmt.Sprintf("schedule-history|call %d of a history on one client: transmission %d at offset %d, schedule says %d", j, k, w.t-t0, schedAt(h.T, k))
+						break
+					}
+				}
+				if bad == "" && (len(ws[seen:]) != h.n || t1-t0 != schedAt(h.T, h.n) || out != "noresp") {
+					bad = fmt.Sprintf("schedule-history|call %d of a history on one client (silent network): %d transmissions, returned %s after %d; want %d transmissions and the no-response error after %d", j, len(ws[seen:]), out, t1-t0, h.n, schedAt(h.T, h.n))
+				}
+			}
 			seen = len(ws)
 			txs := "-"
 			if len(tx) > 0 {
